@@ -125,6 +125,17 @@ Theorem C01_history_monotone : forall fuel lib gs su fa, good (run_groups fuel l
 Proof. exact good_run_groups. Qed.
 Print Assumptions C01_history_monotone.
 
+(** a whole-program instance, for step lists of ANY length: straight-line probe steps run
+    through the complete step machinery (in-arguments set, run/skip evaluated, body invoked,
+    in-arguments removed) record exactly their tags, in declaration order, and leave the context
+    as it was *)
+Theorem C01_straight_line : forall (rg : RG) (rp : RP) tags s,
+  sget "ptag" (ctx s) = None -> sget "pwatch" (ctx s) = None ->
+  run_steps rg rp (map plain_probe tags) s =
+  (OOk, mkst (ctx s) (stack s) (trace s ++ map (probe_event s) tags) (sleeps s) (next_eid s) (jit s)).
+Proof. exact run_steps_plain_probes. Qed.
+Print Assumptions C01_straight_line.
+
 (** * Non-vacuity: a concrete pipeline through the whole interpreter *)
 Definition probe (tag : string) : step :=
   mkstep "vprobe" BProbe (Some [(VStr "ptag", VStr tag)]) None None None
